@@ -87,6 +87,9 @@ def seed_entries():
             by_prop.setdefault(c.split('.')[0], []).append(c)
         for prop, rules in sorted(by_prop.items()):
             out.append(('seed-' + sid, prop, '<patch>', patch, '', ','.join(rules)))
+            # the same change with every local of the package renamed afterwards: what a rule
+            # catches must not depend on how the locals are spelled
+            out.append(('seedalpha-' + sid, prop, '<patch+alpha>', patch, '', ','.join(rules)))
     return out
 
 
@@ -106,15 +109,24 @@ def benign_entries():
             continue
         for prop in props:
             out.append(('benign-' + bid, prop, '<patch>', patch, '', 'ok'))
+    for prop in props:
+        # mechanical twin: every local variable of every function renamed (selftest/alpha.py)
+        out.append(('benign-alpha', prop, '<alpha>', '', '', 'ok'))
     return out
 
 
 def run_variant(args):
     ident, prop, module, old, new, expected, sources = args
-    if module == '<patch>':
+    if module in ('<patch>', '<patch+alpha>'):
         sources = apply_unified_diff(sources, old)
         if sources is None:
             return ident, 'skipped', 'patch does not apply to the current sources'
+        if module == '<patch+alpha>':
+            from selftest import alpha
+            sources = alpha.rename_locals(sources)
+    elif module == '<alpha>':
+        from selftest import alpha
+        sources = alpha.rename_locals(sources)
     else:
         src = sources[module]
         if src.count(old) < 1:
